@@ -39,10 +39,20 @@ type c15Scenario struct {
 
 func genC15(t *rapid.T) c15Scenario {
 	f := sim.FanSpec{Kind: rapid.SampledFrom([]string{"hwmon", "hwmon", "file"}).Draw(t, "kind"), OrigMode: 2, OrigPwm: rapid.IntRange(0, 255).Draw(t, "origPwm"), NoStored: true}
-	if f.Kind == "file" {
+	// script based (cmd) fans: a small share (each access is a process), always with a configured map -
+	// the case in which fan2go must not sweep them
+	cmdFan := rare(t, "cmdFan", 4*envInt("VERIF_CMD_SHARE", 1))
+	if cmdFan {
+		f.Kind = "cmd"
+	}
+	if f.Kind == "file" || f.Kind == "cmd" {
 		f.NoRpm = rapid.Bool().Draw(t, "noRpm")
 	}
-	switch rapid.IntRange(0, 3).Draw(t, "map") {
+	mapCase := rapid.IntRange(0, 3).Draw(t, "map")
+	if cmdFan {
+		mapCase %= 2
+	}
+	switch mapCase {
 	case 0:
 		f.PwmMap = identityMap()
 	case 1:
